@@ -171,6 +171,8 @@ class Executor:
             rec["events"] = w.events
             rec["warn"] = [list(x) for x in w.warnings]
             rec["fired"] = w.fired
+            if w.cb_raised:
+                rec["cb_raised"] = list(w.cb_raised)
             rec["mon"] = w.monitor()
             if not (rec["mon"]["showwarning_ok"] and rec["mon"]["reclimit_ok"] and rec["mon"]["filters_ok"]):
                 # keep later ops judged on their own merits
